@@ -310,6 +310,34 @@ pub fn generate(thorough: bool, seed: u64, out: &mut dyn Write) {
     writeln!(out, "exl 0 . 466f6f").unwrap();
     writeln!(out, "exlw 0 .").unwrap();
 
+    // ---- large files: a configuration / a sheet list whose written form lies on either side of
+    // 2^16 bytes and well beyond it (a fixed read buffer, a 16-bit length or an early stop shows
+    // only there); edits and probes in the head, around the 64 KiB mark and in the tail
+    for (ncat, nkeys) in if thorough { vec![(36usize, 60usize), (40, 60), (90, 60), (300, 100), (3, 2000)] } else { vec![(36, 60), (40, 60), (110, 60)] } {
+        let cats: Vec<(Vec<u8>, Vec<(Vec<u8>, Vec<u8>)>)> = (0..ncat)
+            .map(|i| {
+                (
+                    format!("Category {:03}", i).into_bytes(),
+                    (0..nkeys).map(|j| (format!("Key{:03}_{:04}", i, j).into_bytes(), format!("{}", rng.below(100000)).into_bytes())).collect(),
+                )
+            })
+            .collect();
+        let pick = |i: usize, j: usize| format!("Key{:03}_{:04}", i, j).into_bytes();
+        let marks = [(0usize, 0usize), (ncat / 2, nkeys / 2), (ncat - 1, nkeys - 1), (ncat - 1, 0)];
+        let edits: Vec<(Vec<u8>, Vec<u8>)> = marks.iter().map(|&(i, j)| (pick(i, j), b"edited".to_vec())).collect();
+        let mut probes: Vec<Vec<u8>> = marks.iter().map(|&(i, j)| pick(i, j)).collect();
+        probes.push(format!("Category {:03}", ncat - 1).into_bytes());
+        probes.push(b"Category 000".to_vec());
+        probes.push(b"absent".to_vec());
+        writeln!(out, "{}", cfg_line(&CfgCase { cats, edits, probes })).unwrap();
+    }
+    for nrows in if thorough { vec![3000usize, 5000, 70000] } else { vec![3000, 5000] } {
+        // ~ 16 bytes per row: 3000 rows < 2^16 bytes < 5000 rows; 70000 rows > 2^16 rows
+        let rows: Vec<String> = (0..nrows).map(|i| format!("E{}={}", hex(format!("sheet/Name{:06}", i).as_bytes()), i as i32 - 7)).collect();
+        let probes = [0, nrows / 2, nrows - 1].iter().map(|i| hex(format!("sheet/Name{:06}", i).as_bytes())).collect::<Vec<_>>().join(",");
+        writeln!(out, "exl 7 {} {},{}", rows.join(","), probes, hex(b"sheet/absent")).unwrap();
+    }
+
     // ---- random stream
     let n = if thorough { 600_000 } else { 4_000 };
     for i in 0..n {
